@@ -1,1 +1,472 @@
-/- C03: property theorems (not built yet). -/
+/-
+  C03 — Persisted models are observationally equivalent to the model that was saved.
+
+  Model: Pycel/Model/Persist.lean (cell codec, selection and order of the written cells, the ordered document, the
+  loader, the engine view of a cell map); lemmas: Pycel/Lemmas/Persist.lean; engine: Pycel/Model/Engine.lean with
+  Pycel/Lemmas/Engine.lean (C01).  Every theorem holds for EVERY cell map (any number of cells, any addresses, any
+  build order), EVERY scalar codec that satisfies its contract on the scalars written, EVERY user extra_data, and
+  (the observational part) EVERY value type, EVERY interpretation of python code that reads only the addresses the code
+  names, EVERY equality test of set_value and EVERY finite post-load history.
+-/
+import Pycel.Lemmas.Persist
+import Pycel.Lemmas.EngineInst
+namespace Pycel.Persist
+open Pycel Pycel.Engine List
+
+variable {δ τ : Type}
+
+/-! ## the cell codec: "returns for every saved cell the same value as the original" -/
+
+/- FULL statement (every cell content survives `cell_value` → text codec → `_get_cell`):
+     ∀ e, e.serialized → decodeEntry (e.key, c.dec (c.enc (encodeCell e.content))) = e
+   It is FALSE of the model and of the code for a text constant that starts with '=' (`C03_text_eq_counterexample`;
+   known finding text.eq-prefix).  Proved under the hypotheses the proof forces: `EntryOK e` (a value cell's text does
+   not start with '=', value cells sit at cell addresses) and the codec contract on the one scalar written. -/
+theorem C03_cell_roundtrip_partial (c : Codec τ) (e : Entry) (ok : EntryOK e) (hs : e.serialized = true)
+    (hc : c.dec (c.enc (encodeCell e.content)) = encodeCell e.content) :
+    decodeEntry (e.key, c.dec (c.enc (encodeCell e.content))) = e := by
+  rw [hc]; exact decodeEntry_encode ok hs
+
+/- code always survives (python code is written behind '=' and read back from behind it) -/
+theorem C03_code_roundtrip (py : List Char) : decodeCell (encodeCell (.code py)) = .code py := rfl
+
+/- the counterexample: `set_value(A1, "=foo")`, save, load: A1 is the CODE `foo` -/
+theorem C03_text_eq_counterexample :
+    decodeCell (encodeCell (.const (.str "=foo".toList))) = .code "foo".toList ∧
+    decodeCell (encodeCell (.const (.str "=foo".toList))) ≠ .const (.str "=foo".toList) := by
+  constructor
+  · rfl
+  · decide
+
+/- the hypothesis is exactly what is needed: a constant survives iff it is not a text starting with '=' -/
+theorem C03_eq_hypothesis_forced (v : Val) :
+    decodeCell (encodeCell (.const v)) = .const v ↔ startsWithEq v = false := by
+  constructor
+  · intro h
+    cases v with
+    | str s =>
+      cases s with
+      | nil => rfl
+      | cons ch t =>
+        by_cases e : ch = '='
+        · subst e; simp [encodeCell, decodeCell] at h
+        · simp only [startsWithEq]
+          split
+          · rename_i heq; simp at heq; exact absurd heq.1 e
+          · rfl
+    | _ => rfl
+  · exact decodeCell_const
+
+/-! ## which cells are written, and in which order -/
+
+theorem findEntry_filter_not_plain (k : Key) (cells : List Entry) :
+    findEntry k (cells.filter Entry.serialized) ≠ some .plain := by
+  intro h
+  have hm := mem_of_find_some (by rw [findEntry_eq] at h; exact h)
+  rcases mem_map.mp hm with ⟨e, he, heq⟩
+  have hs := (mem_filter.mp he).2
+  simp only [contentPair, Prod.mk.injEq] at heq
+  simp [Entry.serialized, heq.2] at hs
+
+/- "serialized cell_map (python code or constants)": the file's cell map holds, for every address, '=' + code for a
+   formula cell or a CSE range, the constant for a value cell, and nothing for a range without a formula. -/
+theorem C03_serialize_content {cells : List Entry} (nd : NodupKeys cells) (k : Key) :
+    find k (serialize cells) = (strip (findEntry k cells)).map encodeCell := by
+  rw [← find_perm (rawPairs_keys_nodup nd) (serialize_perm cells).symm]
+  have : rawPairs cells = ((cells.filter Entry.serialized).map contentPair).map fun kv => (kv.1, encodeCell kv.2) := by
+    unfold rawPairs; rw [map_map]; rfl
+  rw [this, find_map_val, ← findEntry_eq, ← strip_find_filter nd]
+  have := findEntry_filter_not_plain k cells
+  cases h : findEntry k (cells.filter Entry.serialized) with
+  | none => rfl
+  | some c => cases c <;> simp_all [strip]
+
+/- "sorted by address": the entries are in (sheet, column, row) order -/
+theorem C03_serialize_sorted (cells : List Entry) :
+    Pairwise (fun a b : Key × Val => keyLe a.1 b.1 = true) (serialize cells) :=
+  isort_sorted entryLe_total entryLe_trans _
+
+/-! ## "Saving is deterministic": the file does not depend on the order in which the model was built -/
+
+/- as a MAPPING the written cell map never depends on the build order (a dict has distinct addresses) -/
+theorem C03_order_independent_map {cells cells' : List Entry} (p : cells ~ cells') (nd : NodupKeys cells) (k : Key) :
+    find k (serialize cells) = find k (serialize cells') := by
+  have nd' : NodupKeys cells' := ((p.map _).nodup_iff).mp nd
+  rw [C03_serialize_content nd, C03_serialize_content nd', findEntry_eq, findEntry_eq]
+  rw [find_perm (by rw [contentPair_keys]; exact nd) (p.map contentPair)]
+
+/-- no two written entries share a sort key (sheet, column, row of the top-left corner) -/
+def DistinctSortKeys (cells : List Entry) : Prop :=
+  ∀ e, e ∈ cells → ∀ e', e' ∈ cells → e.serialized = true → e'.serialized = true →
+    e.key.sortKey = e'.key.sortKey → e = e'
+
+theorem rawPairs_anti {cells : List Entry} (d : DistinctSortKeys cells) (a b : Key × Val)
+    (ha : a ∈ rawPairs cells) (hb : b ∈ rawPairs cells) (h1 : entryLe a b = true) (h2 : entryLe b a = true) : a = b := by
+  rcases mem_map.mp ha with ⟨e, he, rfl⟩
+  rcases mem_map.mp hb with ⟨e', he', rfl⟩
+  have hm := mem_filter.mp he
+  have hm' := mem_filter.mp he'
+  rw [d e hm.1 e' hm'.1 hm.2 hm'.2 (keyLe_antisymm _ _ h1 h2)]
+
+/- byte identity (same entries in the same order) across build orders needs distinct sort keys … -/
+theorem C03_order_independent_bytes {cells cells' : List Entry} (p : cells ~ cells') (d : DistinctSortKeys cells) :
+    serialize cells = serialize cells' :=
+  isort_perm_eq entryLe_total entryLe_trans ((p.filter _).map _) (rawPairs_anti d)
+
+/-- S!A1 = "a" and the CSE range S!A1:A2 (code `x`): same top-left corner, same sort key -/
+def cornerCell : Entry := ⟨⟨['S'], 1, 1, none⟩, .const (.str ['a'])⟩
+def cornerRange : Entry := ⟨⟨['S'], 1, 1, some (1, 2)⟩, .code ['x']⟩
+
+/- … and the exception is real: a cell and a CSE range that share their top-left corner have EQUAL sort keys
+   (`sort_key` ignores the extent), `sorted` is stable, so the two build orders give two different files with the same
+   content. -/
+theorem C03_order_counterexample :
+    [cornerCell, cornerRange] ~ [cornerRange, cornerCell] ∧ NodupKeys [cornerCell, cornerRange] ∧
+    cornerCell.key.sortKey = cornerRange.key.sortKey ∧
+    serialize [cornerCell, cornerRange] ≠ serialize [cornerRange, cornerCell] := by
+  refine ⟨Perm.swap _ _ _, by decide, rfl, by decide⟩
+
+/-! ## "saving an unchanged model again leaves the text file byte-identical" -/
+
+/- the document of the second save equals the document of the first (rendering it to bytes is a function) -/
+theorem C03_save_twice_identical (c : Codec τ) (emb : Emb δ) (m : Model δ) :
+    toDoc c (afterSave emb m) = toDoc c m := by
+  unfold afterSave
+  cases h : m.extra with
+  | none => rfl
+  | some l =>
+    simp only [toDoc, Model.extraList, h, Option.getD_some]
+    rw [userPart_append, userPart_idem]
+    have : userPart [(kCycles, emb.cycles m.cycles), (kHash, emb.hash m.hash), (kFilename, emb.filename m.filename)] = [] := by
+      simp [userPart, reserved_kCycles, reserved_kHash, reserved_kFilename]
+    rw [this, append_nil]
+
+/- "pickle only rewritten when text changed": the second save of an unchanged model does not rewrite the pickle -/
+theorem C03_pickle_not_rewritten {σ : Type} [DecidableEq σ] (render : Doc δ τ → σ) (c : Codec τ) (emb : Emb δ)
+    (m : Model δ) :
+    textChanged (some (render (toDoc c m))) (render (toDoc c (afterSave emb m))) = false := by
+  rw [C03_save_twice_identical]; simp [textChanged]
+
+/-- a model whose extra_data is the dict {"k": 7} -/
+def demoExtra : Model Nat :=
+  { cells := [cornerCell], cycles := none, hash := none, filename := ['w'], extra := some [(['k'], 7)] }
+
+def natEmb : Emb Nat := ⟨fun _ => 0, fun _ => 0, fun _ => 0⟩
+
+/- the pinned `_to_text` (dict.update on the user's dict, which it keeps mutated): the first save writes
+   k, cycles, excel_hash, cell_map, filename; the second k, cycles, excel_hash, filename, cell_map. -/
+theorem C03_save_twice_asWritten_counterexample :
+    docKeys (toDocAsWritten Codec.id demoExtra) = [['k'], kCycles, kHash, kCellMap, kFilename] ∧
+    docKeys (toDocAsWritten Codec.id (afterSaveAsWritten natEmb demoExtra)) =
+      [['k'], kCycles, kHash, kFilename, kCellMap] := by
+  constructor <;> decide
+
+/-! ## "saving a loaded model reproduces the same content (cells, code, constants)" -/
+
+/-- the hypotheses of the round trip: distinct addresses (a dict), every cell `EntryOK` (no text constant starting
+    with '='), the codec contract on the scalars that are written -/
+structure Savable (c : Codec τ) (cells : List Entry) : Prop where
+  nodup : NodupKeys cells
+  ok : ∀ e, e ∈ cells → EntryOK e
+  codec : ∀ e, e ∈ cells → e.serialized = true → c.dec (c.enc (encodeCell e.content)) = encodeCell e.content
+
+theorem Savable.of_faithful (c : Codec τ) {cells : List Entry} (P : Val → Prop) (hf : c.Faithful P)
+    (nodup : NodupKeys cells) (ok : ∀ e, e ∈ cells → EntryOK e) (hp : ∀ e, e ∈ cells → P (encodeCell e.content)) :
+    Savable c cells := ⟨nodup, ok, fun e he _ => hf _ (hp e he)⟩
+
+theorem reload_cells (c : Codec τ) (emb : Emb δ) (stem : List Char) (rebuilt : List Key) (m : Model δ) :
+    (reload c emb stem rebuilt m).cells =
+      rebuild ((((serialize m.cells).map fun kv => (kv.1, c.enc kv.2)).map fun kv => decodeEntry (kv.1, c.dec kv.2)))
+        rebuilt := by
+  simp only [reload, load, toDoc_eq, docCellMap_user, docCellMap, rebuild]
+
+theorem reload_filter_perm (c : Codec τ) (emb : Emb δ) (stem : List Char) (rebuilt : List Key) (m : Model δ)
+    (H : Savable c m.cells) :
+    (reload c emb stem rebuilt m).cells.filter Entry.serialized ~ m.cells.filter Entry.serialized := by
+  rw [reload_cells]
+  have p := decode_serialize c H.ok H.codec
+  exact (rebuild_filter_perm _ rebuilt fun e he => (mem_filter.mp (p.subset he)).2).trans p
+
+/- same cell map as a mapping, always -/
+theorem C03_idempotent_map (c : Codec τ) (emb : Emb δ) (stem : List Char) (rebuilt : List Key) (m : Model δ)
+    (H : Savable c m.cells) (k : Key) :
+    find k (serialize (reload c emb stem rebuilt m).cells) = find k (serialize m.cells) := by
+  have p : serialize (reload c emb stem rebuilt m).cells ~ serialize m.cells :=
+    (serialize_perm _).trans (((reload_filter_perm c emb stem rebuilt m H).map pairOf).trans (serialize_perm _).symm)
+  exact (find_perm (serialize_keys_nodup H.nodup) p.symm).symm
+
+/- same entries in the same order (hence the same bytes) when no two written entries share a sort key -/
+theorem C03_idempotent_bytes (c : Codec τ) (emb : Emb δ) (stem : List Char) (rebuilt : List Key) (m : Model δ)
+    (H : Savable c m.cells) (d : DistinctSortKeys m.cells) :
+    serialize (reload c emb stem rebuilt m).cells = serialize m.cells :=
+  (isort_perm_eq entryLe_total entryLe_trans ((reload_filter_perm c emb stem rebuilt m H).symm.map pairOf)
+    (rawPairs_anti d)).symm
+
+def demoCorner : Model Nat :=
+  { cells := [cornerRange, cornerCell], cycles := none, hash := none, filename := ['w'], extra := none }
+
+/- with the shared corner the loaded model (cells first, then ranges) writes the two entries in the other order -/
+theorem C03_idempotent_counterexample :
+    serialize (reload Codec.id natEmb ['w'] [] demoCorner).cells ≠ serialize demoCorner.cells := by decide
+
+/-! ## "the iteration settings, workbook file name, source hash and user extra_data survive the trip" -/
+
+theorem reload_cycles (c : Codec τ) (emb : Emb δ) (stem : List Char) (r : List Key) (m : Model δ) :
+    (reload c emb stem r m).cycles = m.cycles := by
+  simp only [reload, load, toDoc_eq, docCycles_user, docCycles]
+
+theorem reload_hash (c : Codec τ) (emb : Emb δ) (stem : List Char) (r : List Key) (m : Model δ) :
+    (reload c emb stem r m).hash = m.hash := by
+  simp only [reload, load, toDoc_eq, docHash_user, docHash]
+
+theorem reload_filename (c : Codec τ) (emb : Emb δ) (stem : List Char) (r : List Key) (m : Model δ) :
+    (reload c emb stem r m).filename = m.filename := by
+  simp only [reload, load, toDoc_eq, docFilename_user, docFilename]
+
+theorem reload_extra (c : Codec τ) (emb : Emb δ) (stem : List Char) (r : List Key) (m : Model δ) :
+    (reload c emb stem r m).extraList = userPart m.extraList ++ [(kFilename, emb.filename m.filename)] := by
+  simp only [reload, load, toDoc_eq, Model.extraList, Option.getD_some, docExtra_user, docExtra]
+
+theorem C03_carried (c : Codec τ) (emb : Emb δ) (stem : List Char) (r : List Key) (m : Model δ) :
+    (reload c emb stem r m).cycles = m.cycles ∧ (reload c emb stem r m).hash = m.hash ∧
+    (reload c emb stem r m).filename = m.filename ∧
+    (∀ cur, (reload c emb stem r m).hashMatches cur = m.hashMatches cur) ∧
+    userPart (reload c emb stem r m).extraList = userPart m.extraList := by
+  refine ⟨reload_cycles .., reload_hash .., reload_filename .., fun cur => ?_, ?_⟩
+  · simp only [Model.hashMatches, reload_hash]
+  · rw [reload_extra, userPart_append, userPart_idem]
+    simp [userPart, reserved_kFilename]
+
+/- saving the loaded model writes the same settings, file name, hash and user data, in the same places -/
+theorem C03_resave_settings (c : Codec τ) (emb : Emb δ) (stem : List Char) (r : List Key) (m : Model δ) :
+    toDoc c (reload c emb stem r m) = toDoc c { m with cells := (reload c emb stem r m).cells } := by
+  have h := C03_carried c emb stem r m
+  simp only [toDoc, h.1, h.2.1, h.2.2.1, h.2.2.2.2]
+  rfl
+
+/- … so under `DistinctSortKeys` the re-saved file is the very same document -/
+theorem C03_resave_identical (c : Codec τ) (emb : Emb δ) (stem : List Char) (r : List Key) (m : Model δ)
+    (H : Savable c m.cells) (d : DistinctSortKeys m.cells) :
+    toDoc c (reload c emb stem r m) = toDoc c m := by
+  rw [C03_resave_settings]
+  simp only [toDoc, C03_idempotent_bytes c emb stem r m H d]
+  rfl
+
+/-! ## "reacts to every subsequent set_value/evaluate history exactly as the original does" -/
+
+section Observational
+variable {α : Type}
+
+/-- the cell map of a model as a lookup -/
+def cmOf (m : Model δ) : Key → Option Content := fun k => findEntry k m.cells
+
+theorem reload_strip (c : Codec τ) (emb : Emb δ) (stem : List Char) (r : List Key) (m : Model δ)
+    (H : Savable c m.cells) (k : Key) : strip (cmOf (reload c emb stem r m) k) = strip (cmOf m k) := by
+  unfold cmOf
+  rw [reload_cells]
+  exact strip_find_rebuild r H.nodup (decode_serialize c H.ok H.codec)
+
+/- `load` preserves formulas (the code of every node, hence the graph and the formula semantics) and inputs -/
+theorem C03_loaded_preserves (V : View α) (c : Codec τ) (emb : Emb δ) (stem : List Char) (r : List Key) (m : Model δ)
+    (H : Savable c m.cells) :
+    wbOf V (cmOf (reload c emb stem r m)) = wbOf V (cmOf m) ∧
+    semOf V (cmOf (reload c emb stem r m)) = semOf V (cmOf m) ∧
+    inpOf V (cmOf (reload c emb stem r m)) = inpOf V (cmOf m) :=
+  ⟨wbOf_congr V (reload_strip c emb stem r m H), semOf_congr V (reload_strip c emb stem r m H),
+   inpOf_congr V (reload_strip c emb stem r m H)⟩
+
+theorem loadedState_reload (V : View α) (c : Codec τ) (emb : Emb δ) (stem : List Char) (r : List Key) (m : Model δ)
+    (H : Savable c m.cells) :
+    loadedState V (reload c emb stem r m) = initLoaded (wbOf V (cmOf m)) (semOf V (cmOf m)) (inpOf V (cmOf m)) := by
+  have h := C03_loaded_preserves V c emb stem r m H
+  unfold loadedState
+  show initLoaded (wbOf V (cmOf (reload c emb stem r m))) (semOf V (cmOf (reload c emb stem r m)))
+    (inpOf V (cmOf (reload c emb stem r m))) = _
+  rw [h.1, h.2.1, h.2.2]
+
+/- the loaded model satisfies the engine invariant, its inputs are the saved constants, every saved cell is in its
+   cell map -/
+theorem C03_loaded_inv (V : View α) (c : Codec τ) (emb : Emb δ) (stem : List Char) (r : List Key) (m : Model δ)
+    (H : Savable c m.cells) (hwf : WF (wbOf V (cmOf m))) (hl : Local (wbOf V (cmOf m)) (semOf V (cmOf m))) :
+    Inv (wbOf V (cmOf m)) (semOf V (cmOf m)) (loadedState V (reload c emb stem r m)) ∧
+    (loadedState V (reload c emb stem r m)).inp = inpOf V (cmOf m) ∧
+    ∀ k, k < V.n → (loadedState V (reload c emb stem r m)).built k = true := by
+  rw [loadedState_reload V c emb stem r m H]
+  have h := initLoaded_spec hwf hl (inpOf V (cmOf m))
+  refine ⟨h.1, h.2.1, fun k hk => ?_⟩
+  rw [h.2.2]; exact decide_eq_true hk
+
+/- MAIN: `s` = the evaluation state of the original model when it was saved (any state satisfying the C01 invariant in
+   which the cell map is the whole model and whose current inputs are the constants of the cell map).  After EVERY
+   history of set_value/evaluate, EVERY evaluate returns the same value on the loaded model as on the original —
+   both are, by C01 coherence (`evaluate_spec.val` after `run_inv`), the from-scratch value at the same inputs. -/
+theorem C03_observational (V : View α) (c : Codec τ) (emb : Emb δ) (stem : List Char) (r : List Key) (m : Model δ)
+    (H : Savable c m.cells) (hwf : WF (wbOf V (cmOf m))) (hl : Local (wbOf V (cmOf m)) (semOf V (cmOf m)))
+    (eqv : α → α → Bool) (s : State α) (hinv : Inv (wbOf V (cmOf m)) (semOf V (cmOf m)) s)
+    (hinp : s.inp = inpOf V (cmOf m)) (hbuilt : ∀ k, k < V.n → s.built k = true)
+    (h : List (Op α)) (a : Nat) (ha : a < V.n) :
+    (evaluate (wbOf V (cmOf m)) (semOf V (cmOf m)) a
+        (run (wbOf V (cmOf m)) (semOf V (cmOf m)) eqv (loadedState V (reload c emb stem r m)) h)).1 =
+    (evaluate (wbOf V (cmOf m)) (semOf V (cmOf m)) a
+        (run (wbOf V (cmOf m)) (semOf V (cmOf m)) eqv s h)).1 := by
+  have L := C03_loaded_inv V c emb stem r m H hwf hl
+  have han : a < (wbOf V (cmOf m)).n := ha
+  rw [(evaluate_spec hwf hl (run_inv hwf hl eqv h L.1) a).val han,
+      (evaluate_spec hwf hl (run_inv hwf hl eqv h hinv) a).val han]
+  rw [run_same_inputs hwf hl eqv h _ s L.1 hinv (L.2.1.trans hinp.symm) L.2.2 hbuilt]
+
+/- the same on the whole list of values a history returns -/
+theorem C03_observational_outputs (V : View α) (c : Codec τ) (emb : Emb δ) (stem : List Char) (r : List Key)
+    (m : Model δ) (H : Savable c m.cells) (hwf : WF (wbOf V (cmOf m)))
+    (hl : Local (wbOf V (cmOf m)) (semOf V (cmOf m))) (eqv : α → α → Bool) (s : State α)
+    (hinv : Inv (wbOf V (cmOf m)) (semOf V (cmOf m)) s) (hinp : s.inp = inpOf V (cmOf m))
+    (hbuilt : ∀ k, k < V.n → s.built k = true) (hops : List (Op α))
+    (hin : ∀ a, Op.eval a ∈ hops → a < V.n) :
+    outputs (wbOf V (cmOf m)) (semOf V (cmOf m)) eqv (loadedState V (reload c emb stem r m)) hops =
+    outputs (wbOf V (cmOf m)) (semOf V (cmOf m)) eqv s hops := by
+  have key : ∀ (pre post : List (Op α)), (∀ a, Op.eval a ∈ post → a < V.n) →
+      outputs (wbOf V (cmOf m)) (semOf V (cmOf m)) eqv
+        (run (wbOf V (cmOf m)) (semOf V (cmOf m)) eqv (loadedState V (reload c emb stem r m)) pre) post =
+      outputs (wbOf V (cmOf m)) (semOf V (cmOf m)) eqv
+        (run (wbOf V (cmOf m)) (semOf V (cmOf m)) eqv s pre) post := by
+    intro pre post
+    induction post generalizing pre with
+    | nil => intro _; rfl
+    | cons op post ih =>
+      intro hpost
+      have ih' := ih (pre ++ [op]) (fun a ha => hpost a (mem_cons_of_mem _ ha))
+      rw [run_append, run_append] at ih'
+      cases op with
+      | set i v =>
+        simp only [outputs]
+        exact congrArg (none :: ·) ih'
+      | eval a =>
+        simp only [outputs]
+        have := C03_observational V c emb stem r m H hwf hl eqv s hinv hinp hbuilt pre a (hpost a mem_cons_self)
+        rw [this]
+        exact congrArg (some _ :: ·) ih'
+  exact key [] hops hin
+
+/- "returns for every saved cell the same value as the original" (the empty history) -/
+theorem C03_saved_values (V : View α) (c : Codec τ) (emb : Emb δ) (stem : List Char) (r : List Key) (m : Model δ)
+    (H : Savable c m.cells) (hwf : WF (wbOf V (cmOf m))) (hl : Local (wbOf V (cmOf m)) (semOf V (cmOf m)))
+    (s : State α) (hinv : Inv (wbOf V (cmOf m)) (semOf V (cmOf m)) s)
+    (hinp : s.inp = inpOf V (cmOf m)) (hbuilt : ∀ k, k < V.n → s.built k = true) (a : Nat) (ha : a < V.n) :
+    (evaluate (wbOf V (cmOf m)) (semOf V (cmOf m)) a (loadedState V (reload c emb stem r m))).1 =
+    (evaluate (wbOf V (cmOf m)) (semOf V (cmOf m)) a s).1 :=
+  C03_observational V c emb stem r m H hwf hl (fun _ _ => false) s hinv hinp hbuilt [] a ha
+
+end Observational
+
+/-! ## the instance the correspondence driver runs (Drv/C03.lean) -/
+
+section Inst
+open Pycel.EngineInst
+
+theorem wf_of_viewCheck {α : Type} (V : View α) (cm : Key → Option Content) (h : wfViewCheck V cm = true) :
+    WF (wbOf V cm) := by
+  constructor
+  · intro i j hj
+    by_cases hi : i < V.n
+    · have := (List.all_eq_true.mp h) i (List.mem_range.mpr hi)
+      exact of_decide_eq_true ((List.all_eq_true.mp this) j hj)
+    · have : (wbOf V cm).deps i = [] := by
+        simp only [wbOf, codeAt, hi, if_false, false_and]
+      rw [this] at hj; simp at hj
+  · intro i hk
+    simp only [wbOf] at hk ⊢
+    cases hc : codeAt V cm i with
+    | some py => simp [hc] at hk
+    | none =>
+      simp only [hc] at hk ⊢
+      split
+      · rename_i hr; simp [hr] at hk
+      · rfl
+
+/- python code interpreted through the table reads only the addresses it names -/
+theorem tableView_local (nodes : List Node) (cm : Key → Option Content) :
+    Local (wbOf (tableView nodes) cm) (semOf (tableView nodes) cm) := by
+  intro i e e' h
+  simp only [wbOf] at h
+  simp only [semOf]
+  cases hc : codeAt (tableView nodes) cm i with
+  | some py =>
+    simp only [hc] at h ⊢
+    simp only [tableView] at h ⊢
+    cases hl : lookupCode py nodes with
+    | none => rfl
+    | some fm =>
+      simp only [hl] at h
+      exact evalFml_congr fm e e' h
+  | none =>
+    simp only [hc] at h ⊢
+    by_cases hr : i < (tableView nodes).n ∧ ((tableView nodes).keyOf i).isRange = true
+    · rw [if_pos hr] at h
+      rw [if_pos hr, if_pos hr]
+      simp only [tableView] at h ⊢
+      congr 1
+      apply List.map_congr_left
+      intro row hrow
+      apply List.map_congr_left
+      intro j hj
+      rw [h j (List.mem_flatten.mpr ⟨row, hrow, hj⟩)]
+    · rw [if_neg hr, if_neg hr]
+
+/- the driver's model is an instance of `C03_observational`: for every node table and cell map that pass the run-time
+   check (the driver refuses any other) -/
+theorem C03_observational_inst (nodes : List Node) (c : Codec τ) (emb : Emb δ) (stem : List Char) (r : List Key)
+    (m : Model δ) (H : Savable c m.cells) (hchk : wfViewCheck (tableView nodes) (cmOf m) = true)
+    (s : State EV) (hinv : Inv (wbOf (tableView nodes) (cmOf m)) (semOf (tableView nodes) (cmOf m)) s)
+    (hinp : s.inp = inpOf (tableView nodes) (cmOf m)) (hbuilt : ∀ k, k < nodes.length → s.built k = true)
+    (h : List (Op EV)) (a : Nat) (ha : a < nodes.length) :
+    (evaluate (wbOf (tableView nodes) (cmOf m)) (semOf (tableView nodes) (cmOf m)) a
+        (run (wbOf (tableView nodes) (cmOf m)) (semOf (tableView nodes) (cmOf m)) typedEq
+          (loadedState (tableView nodes) (reload c emb stem r m)) h)).1 =
+    (evaluate (wbOf (tableView nodes) (cmOf m)) (semOf (tableView nodes) (cmOf m)) a
+        (run (wbOf (tableView nodes) (cmOf m)) (semOf (tableView nodes) (cmOf m)) typedEq s h)).1 :=
+  C03_observational (tableView nodes) c emb stem r m H (wf_of_viewCheck _ _ hchk) (tableView_local nodes _)
+    typedEq s hinv hinp hbuilt h a ha
+
+/-! ### non-vacuity: a concrete model with inputs, formulas, a plain range, settings and user data -/
+
+def kA (r : Nat) : Key := ⟨"Sheet1".toList, 1, r, none⟩
+def kB (r : Nat) : Key := ⟨"Sheet1".toList, 2, r, none⟩
+def kRange : Key := ⟨"Sheet1".toList, 1, 1, some (1, 2)⟩
+
+/-- A1 = 0, A2 = "yes", B1 = A1&"|"&A2&"|", A1:A2, B2 = INDEX(A1:A2,2,1) -/
+def demoNodes : List Node :=
+  [⟨kA 1, .inp (.num 0), []⟩, ⟨kA 2, .inp (.str "yes".toList), []⟩,
+   ⟨kB 1, .fml (.cat [0, 1]), "_C_(\"Sheet1!A1\") & \"|\" & _C_(\"Sheet1!A2\") & \"|\"".toList⟩,
+   ⟨kRange, .rng [[0], [1]], []⟩,
+   ⟨kB 2, .fml (.idx 3 2 1), "index(_R_(\"Sheet1!A1:A2\"), 2, 1)".toList⟩]
+
+/-- the cell map in a build order that is neither the file order nor the node order -/
+def demoModel : Model Nat :=
+  { cells := [entryOf demoNodes[4]! .blank, entryOf demoNodes[3]! .blank, entryOf demoNodes[1]! (.str "yes".toList),
+              entryOf demoNodes[0]! (.num 0), entryOf demoNodes[2]! .blank],
+    cycles := some (100, 1/1000), hash := some "d41d8".toList, filename := "book.xlsx".toList,
+    extra := some [("note".toList, 7)] }
+
+theorem demo_savable : Savable Codec.id demoModel.cells :=
+  ⟨by decide, by decide, fun _ _ _ => rfl⟩
+
+example : wfViewCheck (tableView demoNodes) (cmOf demoModel) = true := by decide
+example : DistinctSortKeys demoModel.cells := by unfold DistinctSortKeys; decide
+example : WF (wbOf (tableView demoNodes) (cmOf demoModel)) := wf_of_viewCheck _ _ (by decide)
+example : Inv (wbOf (tableView demoNodes) (cmOf demoModel)) (semOf (tableView demoNodes) (cmOf demoModel))
+    (loadedState (tableView demoNodes) (reload Codec.id natEmb "m".toList [kRange] demoModel)) :=
+  (C03_loaded_inv _ _ _ _ _ _ demo_savable (wf_of_viewCheck _ _ (by decide)) (tableView_local _ _)).1
+
+/- the file of the demo model: (sheet, column, row) order, code behind '=', the plain range absent -/
+example : (serialize demoModel.cells).map (·.1) = [kA 1, kA 2, kB 1, kB 2] := by decide
+/- executed by the model: load it, write "no" over A2, evaluate B2 and B1 -/
+example :
+    outputs (wbOf (tableView demoNodes) (cmOf demoModel)) (semOf (tableView demoNodes) (cmOf demoModel)) typedEq
+      (loadedState (tableView demoNodes) (reload Codec.id natEmb "m".toList [kRange] demoModel))
+      [.eval 4, .set 1 (.sc (.str "no".toList)), .eval 4, .eval 2] =
+    [some (.sc (.str "yes".toList)), none, some (.sc (.str "no".toList)), some (.sc (.str "0|no|".toList))] := by
+  decide +kernel
+
+end Inst
+
+end Pycel.Persist
